@@ -62,6 +62,7 @@ func main() {
 		fmt.Fprintln(os.Stderr, "usage: vpx check <id> [--tier quick|thorough] | replay <file> | worker | list")
 		os.Exit(2)
 	}
+	world.InitProcess()
 	switch os.Args[1] {
 	case "worker":
 		mc.WorkerMain()
